@@ -87,6 +87,11 @@ def bindStar (s : PSt) : Table → PSt
   | [] => s
   | (k, v) :: r => bindStar (if isPublic k then writeSym s k v else s) r
 
+def bindStarC (cfg : Cfg) (s : PSt) (c : Nat) : PSt × Option Exc :=
+  match starNames cfg (s.h.tab c) with
+  | some l => bindFrom s c (l.map (fun n => (n, none)))
+  | none => (bindStar s (s.h.tab c), none)
+
 structure PRes where
   s : PSt
   out : Out
@@ -187,8 +192,12 @@ def execStmt (W : World) : Nat → PSt → Stmt → PRes
       match r.val with
       | .error e => ⟨r.s, .exc e⟩
       | .ok none => ⟨r.s, .exc .notFound⟩
-      | .ok (some c) => ⟨bindStar r.s (r.s.h.tab c), .norm⟩
+      | .ok (some c) =>
+        match bindStarC W.cfg r.s c with
+        | (s', none) => ⟨s', .norm⟩
+        | (s', some e) => ⟨s', .exc e⟩
     | .setctx _ => ⟨s, .exc .name⟩        -- not part of the reference
+    | .setAll l => ⟨assignVar s "__all__" (.names l), .norm⟩
 
 def execBlock (W : World) : Nat → PSt → Block → PRes
   | 0, s, _ => ⟨s, .exc .fuel⟩
